@@ -154,6 +154,12 @@ class TypeCtor:
     def __call__(self, *args):
         return DT(self.cls, *args)
 
+    def __eq__(self, o):
+        return isinstance(o, TypeCtor) and o.cls == self.cls
+
+    def __hash__(self):
+        return hash(("TypeCtor", self.cls))
+
     def __repr__(self):
         return f"<type {self.cls}>"
 
